@@ -39,6 +39,14 @@ def daemon_specs(tier, seed):
                 c = simple_cert("c%d" % len(specs), key_type=kt, kp_reuse=reuse)
                 specs.append(flowcheck.prepare(dict(tag="C02/s%03d" % len(specs), certs=[c], steps=steps, account_hooks=file_hooks,
                                                     meta={"family": "chain lengths over renewals", "chain_lens": seq, "key_type": kt, "kp_reuse": reuse})))
+    # a CA that hands out the end-entity certificate it already issued for that key and those names, behind another chain
+    for seq in ([2, 3], [3, 1], [1, 2, 2]):
+        c = simple_cert("sl%d" % len(specs), kp_reuse=True)
+        steps = []
+        for n in seq:
+            steps += [("call", set_chain(n)), ("run", {"attempts": 1})]
+        specs.append(flowcheck.prepare(dict(tag="C02/s%03d" % len(specs), certs=[c], account_hooks=file_hooks, endpoints={"A": {"ca": {"same_leaf": True}}}, steps=steps,
+                                            meta={"family": "same end-entity certificate behind another chain", "chain_lens": seq})))
     # the chain written in other ways a CA may choose: what is stored is what was sent, byte for byte
     for style in ("crlf", "nofinal", "blank_between", "text_before"):
         c = simple_cert("p%d" % len(specs))
